@@ -448,7 +448,14 @@ def verify(contract, all_contracts=(), timeout_ms=10000, mutate=None, negate_pos
                 return
             res.reached_post += 1
             if contract.result_ty is not None and isinstance(result, Box) and result.ty is None and result.cd is None:
-                result.set_type(contract.result_ty)          # an empty literal returned where the contract declares the type
+                # an empty literal returned where the contract declares the type (inside an Optional: the payload type)
+                rt = contract.result_ty
+                result.set_type(rt.t if isinstance(rt, TOpt) else rt)
+            if isinstance(contract.result_ty, TOpt) and (result is None or isinstance(result, (SV, Box))) and \
+                    not (isinstance(result, SV) and isinstance(result.ty, TOpt)):
+                # the contract declares an Optional result: postconditions see one value of that type on every path
+                rt = contract.result_ty
+                result = SV(rt, rt.none() if result is None else rt.some(to_z3(result, rt.t)))
             # a function that may raise E only under cond: normal return implies not cond is NOT implied;
             # contracts state that separately in ensures when wanted.
             if negate_post is not None:
